@@ -794,6 +794,12 @@ class Phase(Angle):
             elif phase_out is not None and function is np.floor_divide:
                 return NotImplemented
 
+            # The output is written before the inputs are read for the last
+            # time, so if it is one of them, work in a temporary.
+            store = None
+            if any(phase_out is input_ for input_ in inputs):
+                store, phase_out = phase_out, None
+
             fd = np.floor_divide(self.cycle, divisor, out=fd_out)
             corr = Phase.from_angles(d1, d2, factor=fd, out=phase_out)
             remainder = np.subtract(self, corr, out=corr)
@@ -805,6 +811,11 @@ class Phase(Angle):
                 fd += fdx
                 corr = Phase.from_angles(d1, d2, factor=fd, out=corr)
                 remainder = np.subtract(self, corr, out=corr)
+
+            if store is not None:
+                store.view(np.ndarray)[...] = remainder.view(np.ndarray)
+                store.imaginary = remainder.imaginary
+                remainder = store
 
             if function is np.floor_divide:
                 return fd
